@@ -13,7 +13,7 @@ import json as _json
 from symx.api import harness
 
 from spyne import Application, Service, rpc, ComplexModel
-from spyne.model.primitive import Integer, Unicode, Decimal, Date, Boolean, Double, Integer64, Integer32, Integer8, UnsignedInteger64, DateTime
+from spyne.model.primitive import Integer, Unicode, Decimal, Date, Boolean, Double, Integer64, Integer32, Integer8, UnsignedInteger64, DateTime, Time
 from spyne.model.complex import Array
 from spyne.model.binary import ByteArray
 from spyne.model.fault import Fault
@@ -98,6 +98,10 @@ class Svc(Service):
     @rpc(Array(Array(Integer)), _returns=Array(Array(Integer)), _body_style='bare')
     def bgrid(ctx, rows):
         return rows
+
+    @rpc(Time, _returns=Time, _body_style='bare')
+    def btime(ctx, t):
+        return t
 
 
 PROTOCOLS = {'json': JsonDocument, 'yaml': YamlDocument, 'msgpack': MessagePackDocument,
@@ -750,11 +754,11 @@ def _exact_scaled(d, k):
     return -n if sign else n
 
 
-BARE = {'bint': 'int', 'bints': ['int'], 'binner': 'Inner', 'binners': ['Inner'], 'bwhen': 'datetime', 'bgrid': [['int']]}
+BARE = {'bint': 'int', 'bints': ['int'], 'binner': 'Inner', 'binners': ['Inner'], 'bwhen': 'datetime', 'bgrid': [['int']], 'btime': 'time'}
 
 
 @harness('C02', params=[(c, m) for c in CONFIGS for m in sorted(BARE)], label=lambda p: LABEL(p[0]) + ' method=' + p[1], functions=FUNCS,
-         bounds={'signatures': 'bare body style with an integer, an array of 0..2 integers, an object, an array of 0..2 objects, a DateTime (years 0001..9999, naive / UTC / any offset), an array of arrays of integers; the '
+         bounds={'signatures': 'bare body style with an integer, an array of 0..2 integers, an object, an array of 0..2 objects, a DateTime (years 0001..9999, naive / UTC / any offset), an array of arrays of integers, a Time (every time of day to the microsecond); the '
                                'argument under the method key in the same conventions as a member of that type',
                  'values': 'unbounded integer, strings of one arbitrary code point'})
 def bare_signatures(sx, p):
@@ -784,6 +788,32 @@ def bare_signatures(sx, p):
         if wire == 'msgpack':
             node = _as_text(sx, node)
         return sx.And(same, sx.is_str(node), sx.eq(node, text))
+    if typ == 'time':
+        # every time of day to the microsecond, as its ISO 8601 text
+        t = sx.time('t')
+        text = t.isoformat()
+        ctx = deliver(sx, pname, app, server, {meth: text})
+        got = ctx.in_object
+        if got is None:
+            return False
+        ok = [sx.eq(got.hour, t.hour), sx.eq(got.minute, t.minute), sx.eq(got.second, t.second), sx.eq(got.microsecond, t.microsecond)]
+        doc = respond(sx, pname, app, ctx, [got])
+        if not isinstance(doc, (list, tuple)) or len(doc) != 1:
+            return False
+        node = _denorm(doc[0])
+        if wire == 'msgpack':
+            node = _as_text(sx, node)
+        ok += [sx.is_str(node), sx.eq(node, text)]
+        if not sx.symbolic:
+            # (the fraction is read through binary floating point: the replay of each witness also walks a stride of
+            # 4096 microsecond values around it through the same reader, on the real interpreter)
+            import datetime as _d
+            base = (t.microsecond // 4096) * 4096
+            for us in range(base, min(base + 4096, 1000000)):
+                v = _d.time(t.hour, t.minute, t.second, us)
+                if app.in_protocol.from_unicode(Time, v.isoformat()) != v:
+                    return False
+        return sx.And(*ok)
     if typ == [['int']]:
         # an array of arrays: rows of 2, 0 and 1 items (or no rows at all)
         shape = sx.choose('rows', [(2, 0, 1), (1,), ()])
